@@ -94,3 +94,32 @@ package encoder
 //@   loop 0: invariant forall j int :: old($wlen) <= j && j < $wlen ==> $wbuf[j] == (*out)[j - old($wlen)]
 //@   loop 0: invariant forall k int :: 0 <= k && k < old($wlen) ==> $wbuf[k] == old($wbuf[k])
 //@   loop 0: decreases len(buf)
+
+// ---- ownership of returned buffers (C06): memory returned to the caller is
+// never owned by a pool afterwards, so no later call can change it.
+//@ func encodeIntoCheckRace assumed "encoder core (runs generated code): appends to *buf, growing it into a new array when needed; touches no pool of byte buffers"
+//@   requires buf != nil
+//@   modifies *buf, (*buf)[_]
+//@   ensures base(*buf) == old(base(*buf)) || fresh(*buf)
+//@   ensures (result == nil) == encOK(val, opts)
+
+//@ func HTMLEscape props C06,C20
+//@   modifies dst[_]
+//@   ensures base(result) == base(dst) || fresh(result)
+//@   ensures base(result) != 0
+
+// encodeFinishWithPool: the post-passes run in the documented order and leave
+// in *buf a buffer the caller still owns; the replaced buffer goes to the pool.
+//@ func encodeFinishWithPool props C06,C03
+//@   requires buf != nil && !$pooled[base(*buf)] && sync.poolWF() && option.DefaultEncoderBufferSize <= 1099511627776 && (base(*buf) == 0 || allocated(*buf))
+//@   modifies *buf, (*buf)[_], $pooled
+//@   ensures !$pooled[base(*buf)] && sync.poolWF()
+//@   ensures base(*buf) == old(base(*buf)) || fresh(*buf)
+
+//@ func Encode props C06
+//@   requires sync.poolWF() && option.DefaultEncoderBufferSize <= 1099511627776
+//@   modifies $pooled
+//@   ensures r1 == nil ==> (!$pooled[base(r0)] && (base(r0) == 0 || fresh(r0)))
+//@   ensures r1 != nil ==> r0 == nil
+//@   ensures (r1 == nil) == encOK(val, opts)
+//@   ensures sync.poolWF()
